@@ -538,6 +538,15 @@ func (in *Interp) decideBool(c *Term) bool {
 		return in.concrete.model.Eval(c) != 0
 	}
 	ts := in.ts
+	// a condition implied by the literals already decided on this path needs
+	// no solver call (and no event): three-valued evaluation over known atoms
+	if v, ok := in.evalKnown(c, 0); ok {
+		return v
+	}
+	base, neg := c, false
+	if c.op == OBNot {
+		base, neg = c.a, true
+	}
 	if w.pos < len(w.events) {
 		ev := &w.events[w.pos]
 		if ev.kind != evBranch {
@@ -554,6 +563,7 @@ func (in *Interp) decideBool(c *Term) bool {
 			w.synced = w.pos + 1
 		}
 		w.pos++
+		in.learn(base, ev.taken != neg)
 		return ev.taken
 	}
 	// new decision
@@ -584,6 +594,7 @@ func (in *Interp) decideBool(c *Term) bool {
 	w.events = append(w.events, ev)
 	w.pos++
 	w.synced = w.pos
+	in.learn(base, side != neg)
 	return side
 }
 
@@ -731,6 +742,10 @@ func (in *Interp) assume(c *Term, why string) {
 	if c.IsFalse() {
 		panic(pathEnd{PathInfeasible, why})
 	}
+	if v, ok := in.evalKnown(c, 0); ok && v {
+		return // already implied: no event (deterministic: known is a function of the path)
+	}
+	in.learn(c, true)
 	if w.pos < len(w.events) {
 		ev := &w.events[w.pos]
 		if ev.kind != evFact {
@@ -777,6 +792,17 @@ func (in *Interp) check(c *Term, id string) {
 		w.proved[id]++
 		return
 	}
+	if v, ok := in.evalKnown(c, 0); ok && v {
+		w.proved[id]++
+		return
+	}
+	defer func() {
+		if r := recover(); r == nil {
+			in.learn(c, true)
+		} else {
+			panic(r)
+		}
+	}()
 	if w.pos < len(w.events) {
 		// already decided on a previous execution of this prefix: proved
 		ev := &w.events[w.pos]
@@ -913,4 +939,107 @@ func (w *Worker) ensureModelQuiet() (ok bool) {
 		}
 	}()
 	return w.ensureModel()
+}
+
+
+// learn records that t has truth value v on this path and propagates through
+// the boolean structure.
+func (in *Interp) learn(t *Term, v bool) {
+	if t.op == OConst {
+		return
+	}
+	if _, ok := in.known[t]; ok {
+		return
+	}
+	in.known[t] = v
+	switch t.op {
+	case OBNot:
+		in.learn(t.a, !v)
+	case OBAnd:
+		if v {
+			in.learn(t.a, true)
+			in.learn(t.b, true)
+		} else {
+			if av, ok := in.evalKnown(t.a, 0); ok && av {
+				in.learn(t.b, false)
+			} else if bv, ok := in.evalKnown(t.b, 0); ok && bv {
+				in.learn(t.a, false)
+			}
+		}
+	case OBOr:
+		if !v {
+			in.learn(t.a, false)
+			in.learn(t.b, false)
+		} else {
+			if av, ok := in.evalKnown(t.a, 0); ok && !av {
+				in.learn(t.b, true)
+			} else if bv, ok := in.evalKnown(t.b, 0); ok && !bv {
+				in.learn(t.a, true)
+			}
+		}
+	}
+}
+
+// evalKnown evaluates a boolean term under the known literals (three-valued).
+func (in *Interp) evalKnown(t *Term, depth int) (bool, bool) {
+	if t.op == OConst {
+		return t.val != 0, true
+	}
+	if v, ok := in.known[t]; ok {
+		return v, true
+	}
+	if depth > 24 || t.w != 0 {
+		return false, false
+	}
+	switch t.op {
+	case OBNot:
+		v, ok := in.evalKnown(t.a, depth+1)
+		return !v, ok
+	case OBAnd:
+		av, aok := in.evalKnown(t.a, depth+1)
+		if aok && !av {
+			return false, true
+		}
+		bv, bok := in.evalKnown(t.b, depth+1)
+		if bok && !bv {
+			return false, true
+		}
+		if aok && bok {
+			return true, true
+		}
+	case OBOr:
+		av, aok := in.evalKnown(t.a, depth+1)
+		if aok && av {
+			return true, true
+		}
+		bv, bok := in.evalKnown(t.b, depth+1)
+		if bok && bv {
+			return true, true
+		}
+		if aok && bok {
+			return false, true
+		}
+	case OIte:
+		cv, cok := in.evalKnown(t.a, depth+1)
+		if cok {
+			if cv {
+				return in.evalKnown(t.b, depth+1)
+			}
+			return in.evalKnown(t.c, depth+1)
+		}
+		bv, bok := in.evalKnown(t.b, depth+1)
+		cv2, cok2 := in.evalKnown(t.c, depth+1)
+		if bok && cok2 && bv == cv2 {
+			return bv, true
+		}
+	case OEq:
+		if t.a.w == 0 {
+			av, aok := in.evalKnown(t.a, depth+1)
+			bv, bok := in.evalKnown(t.b, depth+1)
+			if aok && bok {
+				return av == bv, true
+			}
+		}
+	}
+	return false, false
 }
